@@ -1,0 +1,16 @@
+//! Verification-only surface (cargo feature `verif-hooks`, off by default).
+//!
+//! Pure re-exports of existing in-process entry points plus a thin wrapper around the
+//! private `LspServer`, so that an external harness can drive the real handlers and the
+//! real server loop over `lsp_server::Connection::memory()`. No behaviour is changed.
+pub use crate::context::{
+    ClientId, ClientProxy, FileDiagnostic, LspFeatures, ServerContext, ServerContextSnapshot,
+    StatusBar, WorkspaceManager, get_client_id,
+};
+pub use crate::handlers::{
+    ClientConfig, init_analysis, initialized_handler, on_notification_handler,
+    on_request_handler, on_response_handler, server_capabilities,
+};
+pub use crate::server::AsyncConnection;
+
+pub use crate::server::verif::VerifServer;
